@@ -56,6 +56,7 @@ type rcfg struct {
 	coord      string // ok | slowjoin | joinerr | rebalance | slowhb
 	nmsgs      int    // messages in the log
 	syncCommit bool
+	badCodec   bool   // the second message of the log carries an unknown compression codec
 	faultAt    string // coordinator method at which a fault is injected ("" = none)
 	faultNth   int    // on its n-th call (0 = every call)
 	faultKind  int    // kafka error code, or -1 = the connection breaks / the request times out
@@ -252,7 +253,11 @@ func newRScenario(cfg rcfg) *rscenario {
 			// serve everything from the requested offset
 			var part []byte
 			for i := int(q.Offset); i < cfg.nmsgs; i++ {
-				part = append(part, encodeMsg(int64(i), 1000+int64(i), nil, []byte(strconv.Itoa(i)))...)
+				attrs := byte(0)
+				if cfg.badCodec && i >= 1 {
+					attrs = 5 // no codec is registered under this id
+				}
+				part = append(part, encodeMsgAttrs(int64(i), 1000+int64(i), nil, []byte(strconv.Itoa(i)), attrs)...)
 			}
 			return FetchResp{Hwm: int64(cfg.nmsgs), Set: part, Cut: -1}
 		},
@@ -505,6 +510,16 @@ func readerScenario(kind int, r *rand.Rand) (string, string) {
 		c4 := s.call("read")
 		s.wait(c4, watchdog())
 		return s.finish(base, t0)
+	case 12: // plain reader: a message with an unknown compression codec (fatal for the fetcher's read), then Close
+		s := newRScenario(rcfg{mode: "plain", broker: "ok", nmsgs: 3, badCodec: true})
+		c := s.call("fetch")
+		s.wait(c, watchdog())
+		c2 := s.call("fetch")
+		s.wait(c2, watchdog())
+		time.Sleep(time.Duration(5+r.Intn(20)) * time.Millisecond)
+		s.closeBegin()
+		<-waitOr(s.closed)
+		return s.finish(base, t0)
 	case 3: // plain reader, messages delivered and some still buffered when Close runs
 		s := newRScenario(rcfg{mode: "plain", broker: "ok", nmsgs: 3 + r.Intn(3)})
 		c := s.call("fetch")
@@ -628,15 +643,98 @@ func readerPart(seed int64) {
 	}
 	n := 0
 	for rep := 0; rep < reps; rep++ {
-		for kind := 0; kind < 12; kind++ {
+		for kind := 0; kind < 13; kind++ {
 			n++
 			if tooManyStuck() {
 				return
 			}
-			if only("rclose", n) {
+			if only("rclose", n) || only("ftrace", n) {
+				kafka.VerifStart()
 				op, impl := readerScenario(kind, scRand(seed, 2, n))
+				evs := kafka.VerifStop()
 				emitSc(n, op, impl)
+				if strings.Contains(impl, "close=ret") {
+					fop, fimpl := fetcherTrace(evs)
+					emitSc(n, fop, fimpl)
+				}
 			}
 		}
 	}
+}
+
+// fetcherTrace converts the RL.* hook events of (*reader).run (placed by the reader builder) into the event alphabet of
+// Model/FetcherLife.lean, one token per event, tagged with the fetcher: T<f>:<attempt> top, C<f> cancel, I<f>:<1|0> init,
+// J<f> iter, R<f>:<class> read, O<f>:<1|0> offsets (after an out-of-range read only), M<f> msg, E<f> sendErr.
+func fetcherTrace(evs []kafka.VerifEvent) (string, string) {
+	ids := map[string]int{}
+	id := func(a string) int {
+		if _, ok := ids[a]; !ok {
+			ids[a] = len(ids) + 1
+		}
+		return ids[a]
+	}
+	lastRead := map[int]string{}
+	exited := map[int]bool{}
+	var toks []string
+	for _, e := range evs {
+		if !strings.HasPrefix(e.Kind, "RL.") || len(e.Args) == 0 {
+			continue
+		}
+		f := id(e.Args[0])
+		switch e.Kind {
+		case "RL.Top":
+			toks = append(toks, fmt.Sprintf("T%d:%s", f, e.Args[2]))
+			lastRead[f] = ""
+		case "RL.Cancel":
+			toks = append(toks, fmt.Sprintf("C%d", f))
+			exited[f] = true
+		case "RL.Init":
+			ok := 0
+			if e.Args[2] == "nil" {
+				ok = 1
+			}
+			toks = append(toks, fmt.Sprintf("I%d:%d", f, ok))
+		case "RL.Iter":
+			toks = append(toks, fmt.Sprintf("J%d", f))
+			lastRead[f] = ""
+		case "RL.Read":
+			cls := "close"
+			switch e.Args[2] {
+			case "nil", "eof", "kafka7":
+				cls = "cont"
+			case "noprogress", "kafka3", "kafka6", "other":
+				cls = "close"
+			case "unknowncodec":
+				cls = "codec"
+			case "kafka1":
+				cls = "oor"
+			case "canceled":
+				cls = "canceled"
+				exited[f] = true
+			default: // another Kafka error: reported to the application, the loop goes on
+				cls = "cont"
+			}
+			lastRead[f] = cls
+			toks = append(toks, fmt.Sprintf("R%d:%s", f, cls))
+		case "RL.Offsets":
+			if lastRead[f] != "oor" {
+				continue // readOffsets inside initialize
+			}
+			ok := 0
+			if e.Args[2] == "nil" {
+				ok = 1
+			}
+			lastRead[f] = ""
+			toks = append(toks, fmt.Sprintf("O%d:%d", f, ok))
+		case "RL.Msg":
+			toks = append(toks, fmt.Sprintf("M%d", f))
+		case "RL.SendErr":
+			toks = append(toks, fmt.Sprintf("E%d", f))
+		}
+	}
+	tr := "-"
+	if len(toks) > 0 {
+		tr = strings.Join(toks, ";")
+	}
+	return "ftrace n=" + strconv.Itoa(len(ids)) + " " + tr, fmt.Sprintf("live=%d", len(ids)-len(exited))
 }
